@@ -7,6 +7,8 @@ sequences never decrease; the idempotency-key lookup leaves the tables alone.
 namespace Ledger.Ctrl
 open Ledger.Base Ledger.Core
 
+theorem fires_nil (n : Nat) : fires [] n = none := rfl
+
 /-- Componentwise order on the two sequences. -/
 def SeqLe (a b : Seqs) : Prop := a.tx ≤ b.tx ∧ a.log ≤ b.log
 
@@ -35,7 +37,7 @@ theorem exec_seq (now : Time) (c : Call) (d : Db) (sq : Seqs) : SeqLe sq (exec n
     | exact insertLog_seq ..
 
 /-- Sequences never decrease along a program. -/
-theorem run_seq {α : Type} (now : Time) (h : String) (f : Option Fault) (p : Prog α) (st : RunSt) :
+theorem run_seq {α : Type} (now : Time) (h : String) (f : Faults) (p : Prog α) (st : RunSt) :
     SeqLe st.seq (run now h f p st).2.seq := by
   have hall : p.All (fun _ => True) := by
     induction p with
@@ -49,7 +51,7 @@ theorem run_seq {α : Type} (now : Time) (h : String) (f : Option Fault) (p : Pr
     p hall st
 
 /-- `fetchLogWithIK` reads only. -/
-theorem run_ikLookup_db (now : Time) (h : String) (f : Option Fault) (ik ihash : String) (st : RunSt) :
+theorem run_ikLookup_db (now : Time) (h : String) (f : Faults) (ik ihash : String) (st : RunSt) :
     (run now h f (ikLookup ik ihash) st).2.db = st.db ∧ (run now h f (ikLookup ik ihash) st).2.seq = st.seq := by
   unfold ikLookup
   split
